@@ -11,7 +11,7 @@
 import ast
 
 from ..loader import AnalysisError, dotted
-from ..astutil import walk_own, calls_in, norm, Defs, leaves, stmt_of, kwarg, need, returns_of, expand, const_value
+from ..astutil import P, walk_own, calls_in, norm, Defs, leaves, stmt_of, kwarg, need, returns_of, expand, const_value
 from .. import cfg as cfgmod
 from ..variants import Witness
 from .c08 import alignment_classes
@@ -67,7 +67,7 @@ def rule_r2(p, res):
     ok = len(corr) == 1
     if ok:
         gs = [(norm(t), pol) for t, pol in g.guards(corr[0])]
-        ok = gs == [("not allow_mirror", True), ("d < 0", True)]
+        ok = gs == [("allow_mirror", False), ("d < 0", True)]
     r.check(ok, f, corr[0] if corr else f.node, "a reflection (det < 0) must be corrected exactly when mirroring is not allowed", {"guard": [(norm(t), pol) for t, pol in g.guards(corr[0])] if corr else None})
     dv = d.single("d")
     r.check(dv is not None and norm(dv) in ("np.sign(np.linalg.det(R))", "np.linalg.det(R)"), f, f.node, "the guard must test the determinant of the fitted rotation")
@@ -152,7 +152,7 @@ def rule_r3(p, res):
     tp = p.own_method("ThinPlateSplines", "_build_coefficients")
     r.instance(tp)
     s = norm(tp.node)
-    r.check("self.v = self.target.points.T.copy()" in s and "self.coefficients = inv_l.dot(self.y.T)" in s and "np.linalg.svd(self.l)" in s, tp, tp.node, "TPS coefficients solve L c = [target; 0]")
+    r.check("self.v = self.target.points.T.copy()" in s and P("self.coefficients = inv_l.dot(self.y.T)") in s and "np.linalg.svd(self.l)" in s, tp, tp.node, "TPS coefficients solve L c = [target; 0]")
     ti = p.own_method("ThinPlateSplines", "__init__")
     s = norm(ti.node)
     r.check("self.k = self.kernel.apply(self.source.points)" in s and "kernel = R2LogR2RBF(source.points)" in s, ti, ti.node, "the TPS system matrix is built from the kernel on the source points")
